@@ -9,7 +9,7 @@ EXTENDS MC_Statements, Json
 
 ShapeInfo(s) == [kind |-> s.kind, f |-> s.f, from |-> s.from, where |-> s.where, acct |-> s.acct, short |-> StmtTokens(s),
                  expanded |-> IF s.kind = "print" THEN <<>> ELSE SelectTokens(Expand(s)),
-                 clauses |-> HasClauses(s.from), filtered |-> s.from.expr.k # "true" \/ s.where.k # "true" \/ s.acct.present]
+                 clauses |-> HasClauses(s.from), chain |-> ClauseChain(s.from), filtered |-> s.from.expr.k # "true" \/ s.where.k # "true" \/ s.acct.present]
 Tables == [headers |-> HeadersV, pool |-> PoolV, dirpool |-> [k \in DOMAIN DirPoolV |-> DirPoolV[k]],
            shapes |-> [n \in DOMAIN ShapesV |-> ShapeInfo(ShapesV[n])],
            printshapes |-> [n \in DOMAIN PrintShapesV |-> ShapeInfo(PrintShapesV[n])],
